@@ -18,6 +18,8 @@ structure StageDrv where
   targets : List String := []   -- every final target ever mentioned
   base : Int := 0               -- time base of the case; every time token is an offset from it
   pend : List (Nat × Name × Meta × Int × Int) := []   -- receptions opened by `ropen`
+  /-- the item the finalize handler holds between `isFileReady` and `finalize` (`finhold`) -/
+  held : Option (Name × Entry) := none
 
 def insertSorted (x : String) : List String → List String
   | [] => [x]
@@ -65,15 +67,18 @@ def observeMem (d : StageDrv) : String :=
 
 def runPs (d : StageDrv) (ps : List Prim) : StageDrv := { d with st := Stage.run d.st ps }
 
-/-- run both queues to quiescence in canonical order (validate queue first, FIFO) -/
-def settle (H : Body → String) (now : Int) : Nat → Stage.State → Stage.State
+/-- run both queues to quiescence in canonical order (validate queue first, FIFO). While the
+    finalize handler holds an item (`busy`) nothing leaves the finalize queue: the handler is
+    one goroutine. -/
+def settle (H : Body → String) (now : Int) (busy : Bool := false) : Nat → Stage.State → Stage.State
   | 0, s => s
   | f + 1, s =>
     match s.mem.vq with
-    | (n, _) :: _ => settle H now f (Stage.run s (processEffects H s n now))
+    | (n, _) :: _ => settle H now busy f (Stage.run s (processEffects H s n now))
     | [] =>
+      if busy then s else
       match s.mem.fq with
-      | (n, _) :: _ => settle H now f (Stage.run s (finhEffects s n now))
+      | (n, _) :: _ => settle H now busy f (Stage.run s (finhEffects s n now))
       | [] => s
 
 def parseTime (d : StageDrv) (tok : String) : Option Int := (parseInt? tok).map (· + d.base)
@@ -127,10 +132,34 @@ def stageOp (d : StageDrv) (ws : List String) : Option (StageDrv × List Prim ×
       (d, processEffects drvH s n now, if (s.mem.vq.any (·.1 == n)) then "ok" else "err-not-queued"))
   | ["finh", n, now] =>
     (parseTime d now).map (fun now => let n := unesc n
-      -- the finalize handler is a single consumer of a FIFO channel: only the head can be taken
+      -- the finalize handler is a single consumer of a FIFO channel: only the head can be taken,
+      -- and only when the handler is not held in the middle of an earlier item
+      if d.held.isSome then (d, [], "err-busy") else
       match s.mem.fq with
       | [] => (d, [], "err-not-queued")
       | (h, _) :: _ => if h == n then (d, finhEffects s n now, "ok") else (d, [], "err-not-head"))
+  -- the finalize handler in two phases: `finhold` runs its decision phase (pre-check without the
+  -- file lock, isFileReady) and, when the file is ready, leaves the handler holding the item
+  -- right before `finalize` (answer `held`; `ok` when the item was skipped or parked);
+  -- `finrelease` lets it go on: `finalize` on the state of THAT moment.
+  | ["finhold", n, now] =>
+    (parseTime d now).map (fun now => let n := unesc n
+      if d.held.isSome then (d, [], "err-busy") else
+      match s.mem.fq with
+      | [] => (d, [], "err-not-queued")
+      | (h, _) :: _ =>
+        if h == n then
+          match finhPending s n now with
+          | some e => ({ d with held := some (n, e) }, finhDecideEffects s n now, "held")
+          | none => (d, finhDecideEffects s n now, "ok")
+        else (d, [], "err-not-head"))
+  | ["finrelease", n, now] =>
+    (parseTime d now).map (fun now => let n := unesc n
+      match d.held with
+      | some (m, e) =>
+        if m == n then ({ d with held := none }, finhDoEffects s n e now, "ok")
+        else (d, [], "err-not-held")
+      | none => (d, [], "err-not-held"))
   | ["firetimer", n] => let n := unesc n
     some (d, timerEffects s n, if s.mem.timers.contains n then "ok" else "err-no-timer")
   | ["consume", t] => some (d, [Prim.rmFinal (unesc t)], "ok")
@@ -185,14 +214,14 @@ def stageStep (d : StageDrv) (ws : List String) : StageDrv × String :=
   match ws with
   | ["observe"] => (d, observe d)
   | ["mem"] => (d, observeMem d)
-  | ["crash"] => ({ d with st := crash d.st, pend := [] }, "ok")
+  | ["crash"] => ({ d with st := crash d.st, pend := [], held := none }, "ok")
   | ["base", b] =>
     match parseInt? b with
     | some b => ({ d with base := b }, "ok")
     | none => (d, "bad-op")
   | ["settle", now] =>
     match parseTime d now with
-    | some now => ({ d with st := settle drvH now 10000 d.st }, "ok")
+    | some now => ({ d with st := settle drvH now d.held.isSome 10000 d.st }, "ok")
     | none => (d, "bad-op")
   | ["received", n, renamed, prev, hash, ftime, beg, fin, now] =>
     match parseTime d ftime, parseInt? beg, parseInt? fin, parseTime d now with
@@ -255,7 +284,7 @@ def stageStep (d : StageDrv) (ws : List String) : StageDrv × String :=
     match parseNat? k, stageOp d rest with
     | some k, some (d', ps, ans) =>
       let s' := crash (Stage.run d'.st (cut k ps))
-      ({ d' with st := s', pend := [] }, ans ++ " cut=" ++ toString (min k (durableCount ps)) ++ "/" ++ toString (durableCount ps))
+      ({ d' with st := s', pend := [], held := none }, ans ++ " cut=" ++ toString (min k (durableCount ps)) ++ "/" ++ toString (durableCount ps))
     | _, _ => (d, "bad-op")
   | _ =>
     match stageOp d ws with
